@@ -18,7 +18,7 @@ RULE = ('histories of 1-4 parse steps (strings, files, files including files) ho
         'gin.constant rejections leave the table unchanged + finalize() rejects unbound / unevaluated macros. '
         'distinct = (step kinds, definition/use order pattern, macro value kinds, constant-name suffix structure)')
 TIERS = {
-    'quick': {'workers': 8, 'cases': 500, 'timeout': 600},
+    'quick': {'workers': 8, 'cases': 2000, 'timeout': 600},
     'thorough': {'workers': 16, 'cases': 15000, 'timeout': 3000},
 }
 REQUIRED_BUCKETS = ['order:use-before-definition', 'order:definition-before-use', 'order:redefinition-later-step', 'order:redefinition-same-step',
